@@ -19,8 +19,8 @@ CLAIMED["C11"] = ("Deductive proof of contracts on executeOne (budget counting: 
   "Partial: 'never counting past N+1' on the error-handler path and the two-run equality 'same state as without budget' are not claimed (see evidence.not_covered); Go stack exhaustion is outside any contract. Trusted: govc, go/ssa, solvers.",
   "contract-based deductive verification: weakest-precondition style VCs over go/ssa of /repo, discharged by z3 4.8.12 / z3 5.1.0 / cvc5 1.0",
   "DESIGN.md §3 C11")
-CLAIMED["C02"] = ("Deductive proof of functional contracts (success clause with the frame of the untouched operands and of the untouched elements of composite objects, error clauses with the PLRM error name) on the data operators pop dup exch count index roll, add sub mul abs, and or not, length get getinterval put putinterval, known def begin end and the name lookup load: integer overflow promoted to real, roll as rotation by the mathematical residue through the three copy calls, getinterval returning a view of the same array (same reference, shifted offset), put/putinterval writing through to the shared backing store and leaving every other element unchanged, def writing the topmost dictionary only, load returning the binding of the topmost dictionary that has the key.",
-  "Partial: comparison (eq/ne: equality of booleans, marks, arrays is not implemented by the library), copy, array/string/dict creation, maxlength, type/cvx, mark operators and the font/resource registries have safety and invariant contracts only; mul's overflow clause is claimed for the multiplicands -1, 0, 1; put/putinterval clauses assume the array is not the operand stack's own backing array (no heap-wide separation invariant); bitwise and/or are uninterpreted (the same Go operator on both sides); float arithmetic as real arithmetic (see evidence.not_covered). Trusted: govc, go/ssa, solvers.",
+CLAIMED["C02"] = ("Deductive proof of functional contracts (success clause with the frame of the untouched operands and of the untouched elements of composite objects, error clauses with the PLRM error name) on 40 functions: the stack operators pop dup exch count index roll copy mark ] >> cleartomark, arithmetic add sub mul abs, boolean/bitwise and or not, comparison eq ne on integers, composite access length get getinterval put putinterval, creation array string dict, dictionary operators known def begin end where currentdict and the name lookup load, type, and the registries definefont findfont defineresource: integer overflow promoted to real, roll as rotation by the mathematical residue through the three copy calls, getinterval and copy returning a view of the same array (same reference), put/putinterval writing through to the shared backing store and leaving every other element unchanged, def writing the topmost dictionary only, load/where using the topmost dictionary that has the key, ] and >> taking exactly the operands above the topmost mark.",
+  "Partial: eq/ne on reals, strings and names, cvx, exec, maxlength, matrix, findresource, readstring and the no-op access operators have safety and invariant contracts only; mul's overflow clause is claimed for the multiplicands -1, 0, 1; put/putinterval/copy clauses assume the target array is not the operand stack's own backing array (no heap-wide separation invariant); the contents of the dictionary built by >> are not specified; bitwise and/or are uninterpreted (the same Go operator on both sides); float arithmetic as real arithmetic (see evidence.not_covered). Trusted: govc, go/ssa, solvers.",
   "contract-based deductive verification: weakest-precondition style VCs over go/ssa of /repo, discharged by z3 4.8.12 / z3 5.1.0 / cvc5 1.0",
   "DESIGN.md A.4 C02")
 CLAIMED["C03"] = ("Deductive proof of control-flow contracts: loop-exit conditions of for and repeat (a loop operator leaves its loop only when the PLRM termination test holds or the body signalled exit), exit never escapes a loop operator, executing a literal object pushes it, if/ifelse run the operand selected by the boolean (observable when the operands are literals), the tail element of a procedure is dispatched in deferred mode unless it was obtained by name lookup, if with a false condition executes nothing, Execute converts stray exit/stop.",
